@@ -17,7 +17,10 @@ use crate::{
     extensions::{ExtensionFactory, Extensions},
     parser::{
         Positioned, parse_query,
-        types::{Directive, DocumentOperations, OperationType, Selection, SelectionSet},
+        types::{
+            Directive, DocumentOperations, OperationType, Selection, SelectionSet,
+            VariableDefinition,
+        },
     },
     registry::{Registry, SDLExportOptions},
     resolver_utils::{resolve_container, resolve_container_serial},
@@ -798,8 +801,16 @@ fn check_recursive_depth(doc: &ExecutableDocument, max_depth: usize) -> ServerRe
     Ok(())
 }
 
-fn remove_skipped_selection(selection_set: &mut SelectionSet, variables: &Variables) {
-    fn is_skipped(directives: &[Positioned<Directive>], variables: &Variables) -> bool {
+fn remove_skipped_selection(
+    selection_set: &mut SelectionSet,
+    variables: &Variables,
+    variable_definitions: &[Positioned<VariableDefinition>],
+) {
+    fn is_skipped(
+        directives: &[Positioned<Directive>],
+        variables: &Variables,
+        variable_definitions: &[Positioned<VariableDefinition>],
+    ) -> bool {
         for directive in directives {
             let include = match &*directive.node.name.node {
                 "skip" => false,
@@ -811,7 +822,20 @@ fn remove_skipped_selection(selection_set: &mut SelectionSet, variables: &Variab
                 let value = condition_input
                     .node
                     .clone()
-                    .into_const_with(|name| variables.get(&name).cloned().ok_or(()))
+                    .into_const_with(|name| {
+                        variables
+                            .get(&name)
+                            .cloned()
+                            .or_else(|| {
+                                // an omitted variable takes its declared default value
+                                variable_definitions
+                                    .iter()
+                                    .find(|def| def.node.name.node == name)
+                                    .and_then(|def| def.node.default_value())
+                                    .cloned()
+                            })
+                            .ok_or(())
+                    })
                     .unwrap_or_default();
                 let value: bool = InputType::parse(Some(value)).unwrap_or_default();
                 if include != value {
@@ -825,7 +849,9 @@ fn remove_skipped_selection(selection_set: &mut SelectionSet, variables: &Variab
 
     selection_set
         .items
-        .retain(|selection| !is_skipped(selection.node.directives(), variables));
+        .retain(|selection| {
+            !is_skipped(selection.node.directives(), variables, variable_definitions)
+        });
 
     for selection in &mut selection_set.items {
         selection.node.directives_mut().retain(|directive| {
@@ -836,11 +862,19 @@ fn remove_skipped_selection(selection_set: &mut SelectionSet, variables: &Variab
     for selection in &mut selection_set.items {
         match &mut selection.node {
             Selection::Field(field) => {
-                remove_skipped_selection(&mut field.node.selection_set.node, variables);
+                remove_skipped_selection(
+                    &mut field.node.selection_set.node,
+                    variables,
+                    variable_definitions,
+                );
             }
             Selection::FragmentSpread(_) => {}
             Selection::InlineFragment(inline_fragment) => {
-                remove_skipped_selection(&mut inline_fragment.node.selection_set.node, variables);
+                remove_skipped_selection(
+                    &mut inline_fragment.node.selection_set.node,
+                    variables,
+                    variable_definitions,
+                );
             }
         }
     }
@@ -930,9 +964,17 @@ pub(crate) async fn prepare_request(
 
     // remove skipped fields
     for fragment in document.fragments.values_mut() {
-        remove_skipped_selection(&mut fragment.node.selection_set.node, &request.variables);
+        remove_skipped_selection(
+            &mut fragment.node.selection_set.node,
+            &request.variables,
+            &operation.node.variable_definitions,
+        );
     }
-    remove_skipped_selection(&mut operation.node.selection_set.node, &request.variables);
+    remove_skipped_selection(
+        &mut operation.node.selection_set.node,
+        &request.variables,
+        &operation.node.variable_definitions,
+    );
 
     let env = QueryEnvInner {
         extensions,
